@@ -53,6 +53,25 @@ void vm_release(VmHeap *heap, NanoValue v)
     if (rc == 0) return;
     if (rc >= 2) { HDR(v)->ref_count = rc - 1; return; }
     HDR(v)->ref_count = 0;
+#ifdef VERIF_RELEASE_CHILD
+    /* the real function releases every contained value before freeing the container; in a step harness
+       the only materialised child is the element at the index of interest (a leaf): release it too, so that
+       a handler that still uses a child after dropping the last reference to its container is caught */
+    {
+        NanoValue child; child.tag = TAG_VOID; child.as.i64 = 0;
+        if (v.tag == TAG_ARRAY && v.as.array->elements != NULL && VERIF_RELEASE_CHILD < v.as.array->length) child = v.as.array->elements[VERIF_RELEASE_CHILD];
+        else if (v.tag == TAG_STRUCT && v.as.sval->fields != NULL && VERIF_RELEASE_CHILD < v.as.sval->field_count) child = v.as.sval->fields[VERIF_RELEASE_CHILD];
+        else if (v.tag == TAG_UNION && v.as.uval->fields != NULL && VERIF_RELEASE_CHILD < v.as.uval->field_count) child = v.as.uval->fields[VERIF_RELEASE_CHILD];
+        else if (v.tag == TAG_TUPLE && VERIF_RELEASE_CHILD < v.as.tuple->count) child = v.as.tuple->elements[VERIF_RELEASE_CHILD];
+        else if (v.tag == TAG_FUNCTION && VERIF_RELEASE_CHILD < v.as.closure->capture_count) child = v.as.closure->captures[VERIF_RELEASE_CHILD];
+        if (child.tag == TAG_STRING && child.as.obj != NULL) {      /* leaves are strings or scalars */
+            __CPROVER_assert(__CPROVER_rw_ok(HDR(child), sizeof(VmHeapHeader)), "vm_release.precondition contained value points to a live object header");
+            uint32_t crc = HDR(child)->ref_count;
+            if (crc >= 2) HDR(child)->ref_count = crc - 1;
+            else if (crc == 1) { HDR(child)->ref_count = 0; free(child.as.obj); }
+        }
+    }
+#endif
     free(v.as.obj);
 }
 #endif
